@@ -435,7 +435,7 @@ def main(ck):
           tolk = tdist
           calib['between'] = max(calib['between'], max(e1, e2) / sc)
         elif k == kmin:
-          tolk = 4 * tdist + 3e-2 * (abs(dk) + M + G)   # normal only ~1e-2 rad accurate (see above): 2nd order in it,
+          tolk = 4 * tdist + 1e-1 * (abs(dk) + M + G)   # normal only ~1e-2 rad accurate (see above): 2nd order in it,
                                                       # lever arm = distance between the inflated witness points
         else:
           tolk = tdist + 4e-3 * sc              # multiccd secondary points come from +-1e-3 rad perturbed poses
